@@ -408,7 +408,18 @@ pub fn emit_recv(recvs: &[Recv], r: &Recv, out: &mut String) {
                 if v.word_false {
                     vo.push("word = false".into());
                 }
-                let attr = if vo.is_empty() { String::new() } else { format!("#[{}({})] ", attr_word(r.id + vi), vo.join(", ")) };
+                // (the order options are written in says nothing: `word, skip` is `skip, word`; now and then
+                // each option stands in an attribute of its own)
+                if (r.id + vi) % 2 == 1 {
+                    vo.reverse();
+                }
+                let attr = if vo.is_empty() {
+                    String::new()
+                } else if (r.id + vi) % 5 == 3 {
+                    vo.iter().map(|o| format!("#[{}({o})] ", attr_word(r.id + vi))).collect::<Vec<_>>().join("")
+                } else {
+                    format!("#[{}({})] ", attr_word(r.id + vi), vo.join(", "))
+                };
                 match &v.body {
                     VBody::Unit => out.push_str(&format!("    {attr}{},\n", v.rust)),
                     VBody::Newtype(t) => {
